@@ -22,10 +22,16 @@ NUMS_PLAIN = ['1', '0', '+1', '-0.25', '1e-1', '.5', '1_0', '0.5', '2', '1.', '1
 BADNUMS = ['abc', '', '1,5', '0x10', '1_', '--1', '1e', 'one', '1 2', 'R', '.', '+', 'in', '1__0', '_1']
 NAMES = ['A', 'B', 'PEO', 'X1', 'a_b', 'P3HT']
 STRV = ['R', 'S', '', 'RS', 'r', '1']
-FREEK = ['foo', 'mass', 'label', 'k1', 'm', 'name', 'Q', 'W', 'k 1', '', 'kwargs', 'self', ' q', 'q ', 'fragnam', 'ww']
+FREEK = ['foo', 'mass', 'label', 'k1', 'm', 'name', 'Q', 'W', 'k 1', '', 'kwargs', 'self', ' q', 'q ', 'fragnam', 'ww',
+         '_ref', '_', '_pos', '2k', '007', 'foobar', 'fo', 'MASS', 'weights']
 FREEV = ['bar', '72', '1.0', '', 'a b', 'R', 'C1', '#', '+1', 'x', 'None', '0', '[', '(', '|2', '.']
 # inside complete strings keys/values must stay clear of the characters the readers scan for
-SAFEK = ['foo', 'mass', 'label', 'k1', 'm', 'name', 'Q', 'W', 'k_1', 'ww']
+# free keys for the propagation cases: plain, upper case, digits (also leading), a leading underscore (also the names
+# pysmiles uses privately: the user's value must win and travel), keys that are prefixes / extensions of each other and
+# of the reserved names, attribute names of the atom readers that no step writes
+SAFEK = ['foo', 'mass', 'label', 'k1', 'm', 'name', 'Q', 'W', 'k_1', 'ww',
+         '_ref', '_bead', '_', '__', '_pos', '_atom_str', 'Ref', 'MASS', 'K', 'k2', '2k', '007', 'foobar', 'fo', 'w2', 'q2',
+         'xx', 'weights', 'charges', 'chirality', 'fragnames', 'class', 'isotope']
 SAFEV = ['bar', '72', '1.0', 'a b', 'R', 'C1', '+1', 'None', '0', 'a.b', '-1']
 EXC = {'TypeError': 'EType', 'KeyError': 'EKey', 'IndexError': 'EIndex', 'ValueError': 'EValue',
        'UnboundLocalError': 'EUnbound', 'LookupError': 'ELookup', 'NameError': 'EName', 'AttributeError': 'EAttr',
@@ -500,6 +506,19 @@ class C14(common.Prop):
                     'frags': [{'name': 'A', 'tokens': ['[$]C', {'atom': 'C', 'annot': {
                         'assign': [['x', 'R'], ['w', '0.5']], 'free': [['k', 'v']],
                         'ents': [['K', 'x', 'R'], ['P', '0.5'], ['K', 'k', 'v']]}}, '(F)[$]']}]})
+        # free keys with a leading underscore / digits / upper case / prefixes of each other, on fragment atoms and beads
+        out.append({'kind': 'prop', 'aa': True,
+                    'units': [{'annot': {'assign': [['fragname', 'A']], 'free': [['_grp', 'g']], 'ents': [['P', 'A'], ['K', '_grp', 'g']]}, 'mult': 2}],
+                    'frags': [{'name': 'A', 'tokens': ['[$]C', {'atom': 'N', 'annot': {
+                        'assign': [['w', '0.25'], ['x', 'R']], 'free': [['_ref', 'a1'], ['_pos', 'p'], ['2k', 'v'], ['foo', '1'], ['foobar', '2'], ['MASS', '3']],
+                        'ents': [['P', '0.25'], ['P', 'R'], ['K', '_ref', 'a1'], ['K', '_pos', 'p'], ['K', '2k', 'v'], ['K', 'foo', '1'],
+                                 ['K', 'foobar', '2'], ['K', 'MASS', '3']]}}, '[$]']}]})
+        out.append({'kind': 'prop', 'aa': False,
+                    'units': [{'annot': {'assign': [['fragname', 'A']], 'free': [], 'ents': [['P', 'A']]}, 'mult': 3}],
+                    'frags': [{'name': 'A', 'tokens': ['[$]', {'atom': '#P', 'annot': {
+                        'assign': [['fragname', 'P'], ['w', '0.5']], 'free': [['_bead', 'p1'], ['_', 'u'], ['007', 'b'], ['fo', '1'], ['foo', '2']],
+                        'ents': [['P', 'P'], ['K', 'w', '0.5'], ['K', '_bead', 'p1'], ['K', '_', 'u'], ['K', '007', 'b'], ['K', 'fo', '1'],
+                                 ['K', 'foo', '2']]}}, '[#Q][$]']}]})
         # branch multipliers: annotated anchor / annotated node inside the unit / annotated multiplied node
         def an(name, assign=(), free=(), ents=None):
             assign = [['fragname', name]] + [list(x) for x in assign]
